@@ -3,7 +3,7 @@ the MANIFEST text by tools/gen_manifest.py; DESIGN.md section 15 has the same li
 ADDED = {
     'C01': 'Rounds 3-4: bases obtained through with_element / with_elements / boundary / an explicit quadrature must assemble what the '
            'directly constructed basis assembles; coefficient vectors stored as float32; integrands that return one of their inputs '
-           '(w["g"], w.h) leave it unchanged and evaluate twice alike.',
+           '(w["g"], w.h) leave it unchanged and evaluate twice alike. Round 6: a complex integrand in a Functional assembled with the default dtype gives the same number as with dtype=complex128.',
     'C02': 'Rounds 3-4: sub-check facet_forms (v^T M u and b^T v of facet forms for nodal interpolants of polynomials = exact rational '
            'facet integrals, also on meshes mixing affine and general cells); unions of overlapping named subdomains; subset bases '
            'derived with with_element; sharp integration orders on the (affine) prisms; rigid motions scaled with the mesh. Round 6: monomials up to degree 5 (quick) / 6 (thorough) on three-dimensional cells.',
@@ -11,7 +11,7 @@ ADDED = {
     'C04': 'Rounds 3-4: the location table is single-valued for EVERY element (not only nodal ones); sub-check special: periodic tensor '
            'meshes glued in one, two or three directions and CompositeBasis of two to four bases (numbers 0..N-1 all used, N as counted, '
            'blocks one after the other, no empty matrix row); bases built on meshes that have served before (discarded operations) or '
-           'come from adaptive refinement.',
+           'come from adaptive refinement. Round 6: for nodal elements (also under ElementDG) row i of the location table is the node of local function i (delta_ij).',
     'C05': 'Rounds 3-4: complex systems; prescribed values and data in small units (2^-30).',
     'C06': 'Rounds 3-4: assembly piece by piece over equally large cell sets; hierarchical elements up to p = 5 with full-degree solutions; '
            'Dirichlet set built with the union operator of views; keyword projection on closed facet sets. Round 5b: mesh objects that have served before (tables read, oriented/refined/translated copies derived and dropped); for vertex-based spaces the unknowns taken from mesh.interior_nodes().',
@@ -19,7 +19,7 @@ ADDED = {
            'refined(k) (the selection it must stand for is found with a geometric parent map).',
     'C08': 'Rounds 3-4: sub-check high_orders: orders 64..300 (400) on the segment and 64, 200 on the quadrilateral judged with shifted '
            'Legendre polynomials (orthogonality relations of total degree n), which monomials cannot resolve.',
-    'C09': 'Rounds 3-4: integer-typed reference points; one element instance evaluated at two point arrays that share coordinates. Round 5b: the same point array changed in place between two evaluations; composites of one shared element instance (e * e) as partitions of unity per component.',
+    'C09': 'Rounds 3-4: integer-typed reference points; one element instance evaluated at two point arrays that share coordinates. Round 5b: the same point array changed in place between two evaluations; composites of one shared element instance (e * e) as partitions of unity per component. Round 6: nodal duality for the DG wrapper of every nodal element.',
     'C10': 'Rounds 3-4: permutation subsets after a whole-mesh evaluation on the same mapping object; normals of prisms from the reference '
            'table; normals of a basis derived with with_element from a basis on an oriented facet set.',
     'C11': 'Rounds 3-4: sub-check large: Delaunay tetrahedral meshes of 300-1000 points through the brute-force oracle, meshes beyond 2^16 '
@@ -45,5 +45,5 @@ ADDED = {
     'C19': 'Rounds 3-4: Form.block; the bases handed out by split() (also for subset and one-sided bases) interpolate like component bases '
            'with the quadrature of the whole; asm over lists with a raw coefficient vector.',
     'C20': 'Rounds 3-4: families complex (dtype=complex128) and basis_product; a NonlinearForm object reused on a second basis; det/inv '
-           'for entries 2^-27..2^10. Round 5b: helper inputs that single precision cannot represent; local Jacobians of the elemental route against BilinearForm of the linearisation.',
+           'for entries 2^-27..2^10. Round 5b: helper inputs that single precision cannot represent; local Jacobians of the elemental route against BilinearForm of the linearisation. Round 6: elemental(...)[1] against the assembled vector; basis products whose later bases live on a translated copy of the mesh with an integrand reading w.x.',
 }
